@@ -58,6 +58,16 @@ func Scenarios(thorough bool) map[string]*Scenario {
 	// spec.replicas > 0 and status.replicas == 0
 	m["Q01z"] = &Scenario{ID: "Q01z", Kind: "CloneSet", Style: "partition", Replicas: 2, ColdStart: true,
 		Steps: []StepSpec{{Replicas: "50%"}, {Replicas: "100%"}}}
+	// Deployment partition style with an absolute step followed by a percentage worth FEWER pods (the partition
+	// already written satisfies the second step and must be kept)
+	m["Q07n"] = &Scenario{ID: "Q07n", Kind: "Deployment", Style: "partition", Replicas: 4,
+		Steps: []StepSpec{{Replicas: "3"}, {Replicas: "50%"}, {Replicas: "100%"}}}
+	// one trafficRoutings entry naming two providers (Ingress + HTTPRoute run as a composite), gracePeriodSeconds 0
+	m["Q02x"] = &Scenario{ID: "Q02x", Kind: "CloneSet", Style: "partition", Replicas: 3, Traffic: "ingress+gateway", Grace: 0,
+		Steps: []StepSpec{{Replicas: "1", Traffic: "20%"}, {Replicas: "100%"}}}
+	// Gateway API, a header-match step, and a user rule that splits between the stable Service and a sibling backend
+	m["Q03s"] = &Scenario{ID: "Q03s", Kind: "CloneSet", Style: "partition", Replicas: 3, Traffic: "gateway", Grace: 1, SiblingBackend: true,
+		Steps: []StepSpec{{Replicas: "1", Header: "canary"}, {Replicas: "2", Traffic: "50%"}, {Replicas: "100%"}}}
 	// percentages that resolve to the same pod count rounded down and to different counts rounded up (25 % of 4 = 1,
 	// 40 % of 4 = 1.6): a jump between them is NOT a jump between equal steps
 	m["Q01j"] = &Scenario{ID: "Q01j", Kind: "CloneSet", Style: "partition", Replicas: 4,
@@ -182,7 +192,7 @@ func plans0(thorough bool) map[string]PropertyPlan {
 		u = 2
 	}
 	return map[string]PropertyPlan{
-		"C01": {Scenarios: []string{"Q01", "Q01b", "Q01c", "Q05", "Q07", "Q08", "Q09", "Q10", "Q11"}, Actions: []string{"scaleUp", "scaleDown", "editPlanInts", "editPlanLow", "editPlanMid", "editPlanMore", "jump(1)", "jump(3)", "pause", "resume"}, MaxUser: u,
+		"C01": {Scenarios: []string{"Q01", "Q01b", "Q01c", "Q05", "Q07", "Q07n", "Q08", "Q09", "Q10", "Q11"}, Actions: []string{"scaleUp", "scaleDown", "editPlanInts", "editPlanLow", "editPlanMid", "editPlanMore", "jump(1)", "jump(3)", "pause", "resume"}, MaxUser: u,
 			FreeQueues: true, StateCap: capQ, Monitors: func(w *World, sc *Scenario) []Monitor { return []Monitor{ExposureMonitor{}} }},
 		"C02": {Scenarios: []string{"Q01", "Q01b", "Q01j", "Q01L", "Q04", "Q05", "Q08", "Q09"}, Actions: []string{"pause", "resume", "editPlanMore", "rollback", "jump(3)"}, MaxUser: u, Disturbances: []string{"crash", "midcrash"}, MaxDisturb: 1,
 			FreeQueues: true, StateCap: capQ, Monitors: func(w *World, sc *Scenario) []Monitor { return []Monitor{StepMonitor{}} }},
@@ -190,17 +200,17 @@ func plans0(thorough bool) map[string]PropertyPlan {
 			FreeQueues: true, StateCap: capQ, Monitors: func(w *World, sc *Scenario) []Monitor { return []Monitor{BatchStatusMonitor{}} }},
 		"C03": {Scenarios: []string{"Q02", "Q02d", "Q02h", "Q03d", "Q05", "Q08", "Q09", "Q10t", "Q30"}, Actions: []string{"jump(2)", "jump(3)", "jump(1)", "editPlanMore", "scaleUp"}, MaxUser: u,
 			FreeQueues: true, StateCap: capQ, Monitors: func(w *World, sc *Scenario) []Monitor { return []Monitor{TrafficOrderMonitor{}} }},
-		"C04": {Scenarios: []string{"Q02", "Q02c", "Q02h", "Q02s", "Q03", "Q05", "Q05p", "Q08", "Q09", "Q10t", "Q30"}, Actions: []string{"rollback", "release3", "disable", "deleteRollout", "jump(2)"}, MaxUser: u, Disturbances: []string{"crash"}, MaxDisturb: 1,
+		"C04": {Scenarios: []string{"Q02", "Q02c", "Q02h", "Q02s", "Q02x", "Q03", "Q05", "Q05p", "Q08", "Q09", "Q10t", "Q30"}, Actions: []string{"rollback", "release3", "disable", "deleteRollout", "jump(2)"}, MaxUser: u, Disturbances: []string{"crash"}, MaxDisturb: 1,
 			FreeQueues: true, StateCap: capQ, Monitors: func(w *World, sc *Scenario) []Monitor { return []Monitor{VoidMonitor{}} }},
 		"C10": {Scenarios: []string{"Q02", "Q02h", "Q05", "Q08", "Q09", "Q09b", "Q10t"}, Actions: []string{"rollback", "release3", "jump(1)"}, NoCostActions: []string{"jump(1)"}, MaxUser: 1, Disturbances: []string{"crash", "midcrash"}, MaxDisturb: 1,
 			FreeQueues: true, StateCap: capQ, Monitors: func(w *World, sc *Scenario) []Monitor { return []Monitor{RollbackOrderMonitor{}} }},
-		"C05": {Scenarios: []string{"Q02", "Q01b", "Q03", "Q05", "Q07", "Q07r", "Q08", "Q09", "Q10", "Q10t", "Q11", "Q31"}, Actions: []string{"rollback", "release3", "disable", "deleteRollout", "editPlanMore", "deleteCanary", "deleteVS"}, MaxUser: u,
+		"C05": {Scenarios: []string{"Q02", "Q01b", "Q03", "Q03s", "Q05", "Q07", "Q07r", "Q08", "Q09", "Q10", "Q10t", "Q11", "Q31"}, Actions: []string{"rollback", "release3", "disable", "deleteRollout", "editPlanMore", "deleteCanary", "deleteVS"}, MaxUser: u,
 			FreeQueues: true, StateCap: capQ, Monitors: func(w *World, sc *Scenario) []Monitor { return []Monitor{&ExitMonitor{Base: CaptureBaseline(w, sc)}} }},
 		"C18": {Scenarios: []string{"Q02", "Q01b", "Q05", "Q09", "Q20", "Q22", "Q30", "Q31", "Q31g"}, Actions: []string{"deleteRollout", "deleteWorkload", "deleteTR"}, MaxUser: 2, Disturbances: []string{"crash", "midcrash", "error"}, MaxDisturb: 1,
 			FreeQueues: true, StateCap: capQ, Monitors: func(w *World, sc *Scenario) []Monitor {
 				return []Monitor{FinalizerMonitor{Base: CaptureBaseline(w, sc)}}
 			}},
-		"C07": {Scenarios: []string{"Q01", "Q01b", "Q01c", "Q01r", "Q02", "Q03", "Q03h", "Q05", "Q05g", "Q05r", "Q07", "Q07m", "Q08", "Q09", "Q10", "Q10t", "Q11", "Q11t"}, Actions: nil, MaxUser: 0,
+		"C07": {Scenarios: []string{"Q01", "Q01b", "Q01c", "Q01r", "Q02", "Q03", "Q03h", "Q05", "Q05g", "Q05r", "Q07", "Q07m", "Q07n", "Q08", "Q09", "Q10", "Q10t", "Q11", "Q11t"}, Actions: nil, MaxUser: 0,
 			FreeQueues: false, Liveness: true, StateCap: capQ, Monitors: func(w *World, sc *Scenario) []Monitor { return []Monitor{PanicMonitor{}} }},
 		"C06": {Scenarios: c06Scenarios, Actions: nil, MaxUser: 0, Disturbances: []string{"crash", "midcrash", "error", "conflict"}, MaxDisturb: 1,
 			FreeQueues: true, StateCap: capQ, Relabel: true, LiveScenarios: []string{"Q01b", "Q02", "Q05", "Q08", "Q09", "Q10", "Q11", "Q31"},
